@@ -24,8 +24,8 @@ pub enum Build {
     /// (op, source) applied one by one
     Ops(Vec<(SetOp, usize)>),
     Purge,
-    /// `n` live entries from `origins` origins via bulk requests on alternating sources
-    Bulk { n: usize, origins: usize, base_secs: u64 },
+    /// `n` live entries (or `n` tombstones) from `origins` origins via bulk requests on alternating sources
+    Bulk { n: usize, origins: usize, base_secs: u64, delete: bool },
 }
 
 #[derive(Debug, Clone)]
@@ -94,7 +94,9 @@ impl Prop for Transfer {
                         1 => 50 + src.below(1_000),
                         _ => *src.pick(&[5_000usize, 20_000]),
                     };
-                    build.push(Build::Bulk { n, origins: 1 + src.below(40), base_secs: 60_000_000 + src.below64(10_000) });
+                    let origins = 1 + src.below(40);
+                    let base_secs = 60_000_000 + src.below64(10_000);
+                    build.push(Build::Bulk { n, origins, base_secs, delete: src.chance(1, 3) });
                 },
             }
         }
@@ -114,14 +116,14 @@ impl Prop for Transfer {
             "build": case.build.iter().map(|b| match b {
                 Build::Ops(ops) => json!(ops.iter().map(|(o, s)| { let mut j = o.json(); j["source"] = json!(s); j }).collect::<Vec<_>>()),
                 Build::Purge => json!("purge"),
-                Build::Bulk { n, origins, base_secs } => json!({"bulk_live_entries": n, "origins": origins, "base_secs": base_secs}),
+                Build::Bulk { n, origins, base_secs, delete } => json!({(if *delete { "bulk_tombstones" } else { "bulk_live_entries" }): n, "origins": origins, "base_secs": base_secs}),
             }).collect::<Vec<_>>(),
         })
     }
 
     fn rule(&self) -> &'static str {
         "sender keyspace states built on a real KeyspaceGroup by 0-5 stages: op histories (0-13 inserts/deletes, 1-4 \
-         origins, both sources, stamps stepping up to 2 h), purges, and bulk loads of 1-20000 entries from 1-40 \
+         origins, both sources, stamps stepping up to 2 h), purges, and bulk loads of 1-20000 live entries or tombstones from 1-40 \
          origins; the state is fetched with the real ReplicationClient::get_state from the real ReplicationService \
          over the in-process transport, at the end and after a generated subset of the stages (so a fetch can follow a \
          purge or a failed request directly); oracle: received set == the sender's set at that moment in live ids, \
@@ -169,17 +171,19 @@ async fn run(case: &Case) -> Outcome {
                 let _ = m.send(e2::msg_purge()).await;
                 reference.purge_old_deletes();
             },
-            Build::Bulk { n, origins: o, base_secs } => {
+            Build::Bulk { n, origins: o, base_secs, delete } => {
                 let m = group.get_or_create_keyspace(ks).await;
                 for (chunk_no, chunk) in (0..*n).collect::<Vec<_>>().chunks(2_000).enumerate() {
                     let mut in_chunk = vec![];
-                    let docs = chunk
+                    let mut metas = vec![];
+                    let docs: Vec<_> = chunk
                         .iter()
                         .map(|i| {
                             let node = (*i % *o) as u8 + 10;
                             origins.insert(node);
                             let stamp = Stamp { secs: base_secs + (*i as u64 / 60_000), frac: 0, counter: (*i % 60_000) as u16, node };
-                            in_chunk.push(SetOp { key: 1_000 + *i as u64, stamp, delete: false });
+                            in_chunk.push(SetOp { key: 1_000 + *i as u64, stamp, delete: *delete });
+                            metas.push(e2::meta(1_000 + *i as u64, stamp));
                             e2::doc(1_000 + *i as u64, stamp, 0)
                         })
                         .collect();
@@ -189,7 +193,11 @@ async fn run(case: &Case) -> Outcome {
                         apply(&mut reference, chunk_no % 2, op);
                     }
                     sources.insert(chunk_no % 2);
-                    let _ = m.send(e2::msg_multi_set(chunk_no % 2, docs)).await;
+                    if *delete {
+                        let _ = m.send(e2::msg_multi_del(chunk_no % 2, metas)).await;
+                    } else {
+                        let _ = m.send(e2::msg_multi_set(chunk_no % 2, docs)).await;
+                    }
                 }
             },
         }
